@@ -57,7 +57,7 @@ type fsig3 struct {
 	rec      bool // self-recursive (a Fixpoint on fuel)
 	consumes []bool
 	gsig     *types.Signature
-	heap     bool // heap variant: takes the table after fuel and returns it last
+	heap     bool  // heap variant: takes the table after fuel and returns it last
 	resClass []int // per Go result of pointer type: 0 a fresh object (or a value), 1 the receiver or a fresh object, 2 unknown
 }
 
@@ -78,23 +78,24 @@ func (s *fsig3) nOut() int {
 }
 
 type g3 struct {
-	repo     string
-	imp      *srcImporter
-	pkgs     map[string]*pkgInfo
-	funcs    map[string]*fsig3
-	legacy   map[string]*fsig // sigs of Gen/Kernels2.v
-	legDecl  map[string]*legacyInfo
-	decls    []string // Records / Inductives / setters, in order
-	declInfo []declInfo4 // parallel to decls (used by the fourth mode)
-	declSeen map[string]bool
-	absTypes []string
-	absVars  []absMeth
-	sentinel []string
-	sentSeen map[string]bool
-	consts   *tableSet
-	mut      map[string]*mutInfo
-	inProg   map[string]bool
-	sumAlts  map[string][]alt3
+	repo      string
+	imp       *srcImporter
+	pkgs      map[string]*pkgInfo
+	funcs     map[string]*fsig3
+	legacy    map[string]*fsig // sigs of Gen/Kernels2.v
+	legDecl   map[string]*legacyInfo
+	decls     []string    // Records / Inductives / setters, in order
+	declInfo  []declInfo4 // parallel to decls (used by the fourth mode)
+	declSeen  map[string]bool
+	absTypes  []string
+	absVars   []absMeth
+	sentinel  []string
+	sentSeen  map[string]bool
+	consts    *tableSet
+	mut       map[string]*mutInfo
+	inProg    map[string]bool
+	sumAlts   map[string][]alt3
+	sortSites []sortSite5 // (phase 5) every sort.Sort / IsSorted / Reverse site: function, kind, static type
 }
 
 type legacyInfo struct {
@@ -700,6 +701,7 @@ func (c *m3) translate3() (out string, err error) {
 		}
 	}()
 	fn := c.fn
+	c.checkLocalNames5()
 	if fn.Type.TypeParams != nil {
 		c.fail(fn, "generic function")
 	}
@@ -831,6 +833,7 @@ func (c *m3) translate3() (out string, err error) {
 	c.numberSites()
 	c.computeErased()
 	c.aliasCheck()
+	c.absAliasCheck5()
 	if c.spec.m4 {
 		c.checkBig()
 		c.checkOrigins4()
@@ -839,6 +842,7 @@ func (c *m3) translate3() (out string, err error) {
 		c.sb.Reset()
 		c.pend = nil
 		c.ntmp = 0
+		c.nn, c.nnKill, c.nnEpoch = nil, nil, 0
 		c.effect = false
 		c.usesFuel = c.sig.rec
 		c.fallible = fallible
@@ -1020,6 +1024,7 @@ func (c *m3) isRecursive() bool {
 // the file
 
 func buildKernels3(repo string, specs []k3spec) (string, []string) {
+	repoRoot5 = repo
 	g := &g3{repo: repo, imp: newSrcImporter(), pkgs: map[string]*pkgInfo{}, funcs: map[string]*fsig3{},
 		declSeen: map[string]bool{}, sentSeen: map[string]bool{}, inProg: map[string]bool{}, sumAlts: map[string][]alt3{},
 		consts: &tableSet{defs: map[string]string{}, lens: map[string]int{}}}
@@ -1128,6 +1133,7 @@ func buildKernels3(repo string, specs []k3spec) (string, []string) {
 	}
 	sb.WriteString(strings.Join(defs, "\n"))
 	sb.WriteString("\nEnd K3.\n")
+	sb.WriteString(sortSitesText5(g.sortSites, false))
 	return sb.String(), nil
 }
 
